@@ -4,6 +4,7 @@ import (
 	"context"
 	"fmt"
 	"reflect"
+	"strings"
 	"testing/synctest"
 	"time"
 
@@ -248,6 +249,9 @@ func build(e *env) (post func() string) {
 		e.ports = []*port{p, q}
 	}
 
+	if strings.HasPrefix(sc.Stage, "fork.") {
+		return buildFork(e)
+	}
 	switch sc.Stage {
 	case "map":
 		vals, errs, consumed := sc.valuesAndErrors(func(x int) []int { return []int{sc.mapf(x)} })
@@ -513,7 +517,7 @@ func (sc *Scenario) timed() bool     { return sc.generator() || sc.Stage == "thr
 
 // run executes the scenario; it must be called inside a bubble.
 func run(sc *Scenario, diag bool) (res Result) {
-	e := &env{sc: sc, calls: map[int]int{}, errs: map[int]*stageErr{}, envStop: make(chan struct{}), start: time.Now()}
+	e := &env{sc: sc, calls: map[int]int{}, errs: map[int]*stageErr{}, envStop: make(chan struct{}), start: time.Now(), gated: sc.Gated}
 	e.ctx, e.cancel = context.WithCancel(context.Background())
 	post := build(e)
 	fail := func(m string) Result {
@@ -544,7 +548,12 @@ func run(sc *Scenario, diag bool) (res Result) {
 		if e.backpressure() {
 			res.Backpressure = true
 		}
+		if sc.Par > 0 && e.inflight() > sc.Par {
+			return fail(fmt.Sprintf("%d user-function calls in flight with %d workers", e.inflight(), sc.Par))
+		}
 	}
+	res.MaxInflight, res.Reordered = e.maxInflight, e.reordered
+	e.openGates()
 
 	if !e.cancelled && !sc.NoFinish && sc.generator() {
 		// generators run until cancelled: a fair consumer takes N deliveries (or sees both channels close under fail-fast)
